@@ -741,6 +741,7 @@ def run_C19(ctx):
                 continue
             ctx.mismatch({**case, 'step': s}, e, ml)
     tiny_stream(ctx)
+    residue_stream(ctx)
     run_ctor_checks(ctx)
     ctx.rule = ('random straight-line programs of 40 steps over {construct,+,-,*,/,abs,neg,to,to-in-place,*number,/number} '
                 'on a store of <= 12 live quantities; every live object inspected after every step; '
@@ -758,6 +759,45 @@ def tiny_stream(ctx):
                 for inplace in (False, True):
                     case = {'t': 'tiny', 'k': k, 'v': v, 'u': u, 'u2': u2, 'inplace': inplace}
                     check_tiny(ctx, case)
+
+
+def residue_stream(ctx):
+    """tiny negative values and rounding residues: `K(-1e-15, u)` must be rejected, and differences of
+    quantities equal up to rounding (`a - a.to(u2)`) must be valid or raise ValueError"""
+    rng = ctx.rng
+    for k in SIGN:
+        for u in units_of(k):
+            for v in (-1e-15, -1e-13, -5e-324, -1e-300, -2.220446049250313e-16):
+                case = {'t': 'tinyneg', 'k': k, 'v': v, 'u': u}
+                out = impl_outcome(lambda: build([k, v, u]))
+                ctx.case_done(case, nontrivial=True)
+                if out != ('err', 'ValueError'):
+                    ctx.violation(case, {'why': f'{k}({v!r}, {u!r}) was not rejected with ValueError', 'impl': out})
+    for _ in range(ctx.budget(600, 20000)):
+        k = rng.choice(list(SIGN))
+        u, u2 = rng.choice(units_of(k)), rng.choice(units_of(k))
+        v = abs(gen_value(rng, k, 6)) or 1.0
+        case = {'t': 'residue', 'k': k, 'v': v, 'u': u, 'u2': u2}
+        check_residue(ctx, case)
+
+
+def check_residue(ctx, case):
+    k, v, u, u2 = case['k'], case['v'], case['u'], case['u2']
+    a = build([k, v, u])
+    b = a.to(u2)
+    ctx.case_done(case, nontrivial=u != u2)
+    for fn, what in ((lambda: a - b, 'a - b'), (lambda: b - a, 'b - a'), (lambda: (a + b) - b - a if False else a - b.to(u), 'a - b.to(u)')):
+        out = impl_outcome(fn)
+        if out[0] == 'ok' and out[1] != 'num':
+            if not sign_ok(out[1], out[2]):
+                ctx.violation(case, {'why': f'{what} returned the invalid quantity {out[1]}({out[2]!r}, {out[3]!r})'})
+                return
+        elif out[0] == 'err' and out[1] != 'ValueError':
+            ctx.violation(case, {'why': f'{what} raised {out[1]}'})
+            return
+        elif out[0] == 'none':
+            ctx.violation(case, {'why': f'{what} returned None'})
+            return
 
 
 def check_tiny(ctx, case):
@@ -788,6 +828,14 @@ def check_tiny(ctx, case):
 def replay_C19(ctx, case):
     if case.get('t') == 'tiny':
         return check_tiny(ctx, case)
+    if case.get('t') == 'residue':
+        return check_residue(ctx, case)
+    if case.get('t') == 'tinyneg':
+        out = impl_outcome(lambda: build([case['k'], case['v'], case['u']]))
+        ctx.case_done(case)
+        if out != ('err', 'ValueError'):
+            ctx.violation(case, {'why': 'tiny negative value was not rejected with ValueError', 'impl': out})
+        return
     if case.get('t') == 'prog':
         steps, lines, expect, bad = run_program(ctx, case['seed'], case['length'])
         ctx.case_done(case)
